@@ -1,4 +1,5 @@
 import GrVerif.Proofs.FeatBits
+import GrVerif.Proofs.FeatLoad
 /-!
 # C18 — feature values are an isolated, range-checked map with font defaults
 
@@ -292,5 +293,12 @@ theorem lang_unknown_defaults (s : SillMap) (t : Nat) (h : s.langs.find? (fun l 
 /-! ### non-vacuity -/
 example : alloc 0 [⟨5, 0, 256, [], 3, 0⟩, ⟨6, 0, 257, [], 0xffffffff, 0⟩] =
     some ([(⟨5, 3, 2, 0, 0, 0, 256, []⟩, 0), (⟨6, 0xffffffff, 32, 0, 1, 0, 257, []⟩, 0)], 64) := by decide
+
+/-- **the Feat and Sill tables are read in bounds whatever their bytes** (also one of C01's tables): the header, the feature records
+(16 bytes reserved per record whatever the version), each record's settings after the loader's own test of `settings_offset +
+num_settings·4`, the language records and each language's settings never lie outside the table -/
+theorem feat_table_total (t : Buf) : ∃ r, readFeats t = .ok r := readFeats_total t
+
+theorem sill_table_total (t : Buf) (fm : FeatureMap) : ∃ r, readSill t fm = .ok r := readSill_total t fm
 
 end GrVerif.Props.C18
